@@ -503,6 +503,20 @@ def _r3bc(run, prog, eff, ci, ch, chclo):
                         if c and '.' not in c:
                             always.add(c)
         K = '%s|%s|%s|' % (ci.mod.name, ci.name, pname)
+        # a cached field is read by the populate routine only after it has been rebuilt there
+        for f, sts in sorted(psum.writes.items()):
+            if prog.field(ci, f) is None:
+                continue
+            wl = [st.lineno for st in sts if isinstance(st, (ast.Assign, ast.AnnAssign))]
+            if not wl:
+                continue
+            first_w = min(wl)
+            early = [n_ for n_ in ast.walk(pfn) if isinstance(n_, ast.Attribute) and isinstance(n_.ctx, ast.Load) and self_chain(n_) == f and n_.lineno < first_w]
+            if early:
+                run.subject('C01-R3b')
+                run.fail('C01-R3b', K + 'read-before-rebuilt:' + f, ci.mod.relpath, early[0].lineno,
+                         '%s.%s reads the cached field %s (line %d) before assigning it (line %d): at that point it still holds the reset value or the '
+                         'object of the previous configuration' % (ci.name, pname, f, early[0].lineno, first_w))
         for f, sts in sorted(psum.writes.items()):
             cs, setter = prog.find_setter(ci, f) if hasattr(prog, 'find_setter') else (None, None)
             if setter is not None:
@@ -793,6 +807,10 @@ _IE = 'cherab/core/model/plasma/impact_excitation.pyx'
 _SR = 'cherab/core/model/attenuator/singleray.pyx'
 _LN = 'cherab/core/laser/node.pyx'
 MUTANTS = [
+    dict(name='thermalcx-target-species-assigned-last', file='cherab/core/model/plasma/thermal_cx.pyx', edits=[
+        dict(file='cherab/core/model/plasma/thermal_cx.pyx', find="            self._target_species = self._plasma.composition.get(self._line.element, receiver_charge)", replace="            target_species = self._plasma.composition.get(self._line.element, receiver_charge)"),
+        dict(file='cherab/core/model/plasma/thermal_cx.pyx', find="                                                self._atomic_data, *self._lineshape_args, **self._lineshape_kwargs)\n\n    def _change(self):", replace="                                                self._atomic_data, *self._lineshape_args, **self._lineshape_kwargs)\n        self._target_species = target_species\n\n    def _change(self):")],
+        expect='C01-R3b'),
     dict(name='beam-energy-notifies-before-assignment', file=_BN, find="        self._energy = value\n        self.notifier.notify()", replace="        self.notifier.notify()\n        self._energy = value", expect='C01-R1'),
     dict(name='beam-energy-notifies-only-when-larger', file=_BN, find="        self._energy = value\n        self.notifier.notify()", replace="        bigger = value > self._energy\n        self._energy = value\n        if bigger:\n            self.notifier.notify()", expect='C01-R1'),
     dict(name='laser-subscribes-before-unsubscribing', file='cherab/core/laser/node.pyx', edits=[
